@@ -62,7 +62,12 @@ ORDINARY = ['groceries', 'Recurring', 'café', 'ÜBER', '東京', 'incomes', 'tr
 for _t in ('income', 'investment', 'transfer'):
     ORDINARY += [' ' + _t, _t + ' ', '\t' + _t.upper(), _t + '\n', '#' + _t, _t + 's', _t[:-1], _t.replace('e', 'é', 1),
                  _t[:2] + '-' + _t[2:], _t + ':2025', ''.join(chr(ord(c) + 0xFEE0) for c in _t), _t.replace('i', 'ı').replace('I', 'İ'),
-                 'non' + _t, _t + '_tax']
+                 'non' + _t, _t + '_tax',
+                 # letters that only a Unicode case FOLD (not lower-casing) maps onto the word: long s, the st ligature, sharp s
+                 _t.replace('s', '\u017f'), _t.upper().replace('ST', '\ufb06'), _t.replace('s', '\u00df'), _t.replace('i', '\u0130').upper(),
+                 _t.upper().replace('K', '\u212a'),
+                 # one tag whose text contains a comma (a tag list joined by commas must not be mistaken for it, and vice versa)
+                 'bonus,' + _t, _t + ',bonus', _t + ',', ',' + _t]
 
 
 def extract_block(js):
@@ -102,6 +107,14 @@ def grid(rnd, t, shard):
                     taglists.append(combo + combo[:1])
     for o in ORDINARY:
         taglists.append([o])
+    # lists that coincide once joined by ',' ';' ' ' or '|' (all pairs are evaluated in ONE script context, like one page load,
+    # so a memo keyed by the joined text would hand one list the other's answer), in both orders of arrival
+    for sp_ in SPECIAL:
+        for o in ('bonus', 'salary', 'x'):
+            for sep in (',', ';', ' ', '|', ''):
+                a_, b_ = [o, sp_], [o + sep + sp_]
+                c_, d_ = [sp_, o + '2'], [sp_ + sep + o + '2']
+                taglists += [a_, b_, d_, c_]
     pairs = [(a, tl) for a in amounts for tl in taglists]
     extra = 2000 if t == 'quick' else 60000
     for _ in range(extra):
@@ -170,7 +183,7 @@ def judge_pairs(rec, pairs, flows):
         out = json.loads(p.stdout)
     finally:
         shutil.rmtree(tmp, ignore_errors=True)
-    for (a, tl), js in zip(pairs, out['pairs']):
+    for idx, ((a, tl), js) in enumerate(zip(pairs, out['pairs'])):
         rec.case()
         rec.count('js_pairs_evaluated')
         py = py_side(cl, a, tl)
@@ -186,7 +199,8 @@ def judge_pairs(rec, pairs, flows):
                 all(js[k] is None or js[k] == py[k] for k in ('inc', 'tr', 'inv')))
         if not same:
             rec.violation(classify_key(a, tl, js, py),
-                          f'amount={a!r} tags={tl!r}: JS {js} != Python {py}', {'kind': 'pair', 'a': a, 't': tl})
+                          f'amount={a!r} tags={tl!r}: JS {js} != Python {py}',
+                          {'kind': 'pair', 'a': a, 't': tl, 'before': [list(x) for x in pairs[max(0, idx - 3):idx]]})
     for f3, jv in zip(flows, out['flows']):
         rec.case()
         rec.count('cashflow_triples')
@@ -216,4 +230,4 @@ def replay(rec, case):
     if case.get('kind') == 'flow':
         judge_pairs(rec, [], [case['f']])
     else:
-        judge_pairs(rec, [(case['a'], case['t'])], [])
+        judge_pairs(rec, [tuple(x) for x in case.get('before', [])] + [(case['a'], case['t'])], [])
